@@ -5,3 +5,28 @@ package thrift
 // Contracts for the deductive verifier in /verif (comment-only).
 
 //@ pure method timeoutable.Timeout
+
+// C16: the zigzag coding of the compact protocol is a bijection on the machine
+// integers: decoding an encoded value gives the value back (and conversely),
+// for all 2^64 (2^32) inputs, in exact two's-complement arithmetic.
+
+//@ func (*TCompactProtocol).int64ToZigzag
+//@   property C16
+//@   bitvector
+//@   ensures @decoding_gives_the_value_back zigzagToInt64(result) == l
+//@   ensures @small_magnitudes_get_small_codes (0 <= l && l < 64 ==> 0 <= result && result < 128) && (0 - 64 <= l && l < 0 ==> 0 <= result && result < 128)
+
+//@ func (*TCompactProtocol).zigzagToInt64
+//@   property C16
+//@   bitvector
+//@   ensures @encoding_gives_the_code_back int64ToZigzag(result) == n
+
+//@ func (*TCompactProtocol).int32ToZigzag
+//@   property C16
+//@   bitvector
+//@   ensures @decoding_gives_the_value_back zigzagToInt32(result) == n
+
+//@ func (*TCompactProtocol).zigzagToInt32
+//@   property C16
+//@   bitvector
+//@   ensures @encoding_gives_the_code_back int32ToZigzag(result) == n
